@@ -34,6 +34,22 @@ class Names:
         if table:
             self.table.update(table)
 
+    dstyle = 0          # how gamma writes the declared defaults: 0 = truthy values (7, 'dflt'), 1 = None / falsy values
+    kindname = None
+
+    def default(self, ty: str) -> Any:
+        """the declared default of an optional field of logical type ty (spec: DflV)"""
+        if self.dstyle == 0:
+            return DEFAULTS[ty]
+        if ty == "int" and self.kindname == "sqlalchemy":
+            return 0          # mapped_column(default=None) means "no default" in SQLAlchemy
+        return {"int": None, "str": "", "any": None}[ty]
+
+    def pytype(self, ty: str, req: bool) -> Any:
+        if self.dstyle == 1 and ty == "int" and not req and self.kindname != "sqlalchemy":
+            return Optional[int]
+        return PYTYPES[ty]
+
     def word(self, w: str) -> str:
         return self.table.get(w, w)
 
@@ -79,7 +95,7 @@ def make_dataclass_model(shape, names: Names, ctor_log: Optional[list] = None):
         if f["req"]:
             fields.append((n, PYTYPES[f["ty"]]))
         else:
-            fields.append((n, PYTYPES[f["ty"]], dataclasses.field(default=DEFAULTS[f["ty"]])))
+            fields.append((n, names.pytype(f["ty"], False), dataclasses.field(default=names.default(f["ty"]))))
     ns = {}
     if ctor_log is not None:
         def __post_init__(self):
@@ -94,7 +110,7 @@ def make_kwargs_model(shape, names: Names):
     for f in shape:
         n = names.field(f["id"])
         ann = {"int": "int", "str": "str", "any": "object"}[f["ty"]]
-        params.append(f"{n}: {ann}" if f["req"] else f"{n}: {ann} = {DEFAULTS[f['ty']]!r}")
+        params.append(f"{n}: {ann}" if f["req"] else f"{n}: {ann} = {names.default(f['ty'])!r}")
         body.append(f"    self.{n} = {n}")
     src = "class Model:\n  def __init__(self, *, " + ", ".join(params) + ", **kwargs):\n" + "\n".join("  " + b for b in body) + "\n"
     ns: dict = {}
@@ -112,6 +128,10 @@ def render_spec(spec: dict, names: Names, rng: random.Random):
     return tuple(path) if rng.random() < 0.5 else list(path)
 
 
+TYPE_PRED_ALLOWED = {"on": True}     # c06 switches bare type predicates off for its TypedDict run (known finding of C17)
+TYPE_PRED_USED: list = []      # set when a recipe selects fields by a bare type predicate (int / str)
+
+
 def sel_pred(sel_ids: list, shape, names: Names, rng: random.Random, model=None):
     """a predicate that selects exactly the fields with these ids (among the fields of the shape)"""
     from adaptix import P
@@ -126,7 +146,8 @@ def sel_pred(sel_ids: list, shape, names: Names, rng: random.Random, model=None)
             return P[n]
         return P[model][n] if model is not None else getattr(P, n)
     tys = {f["ty"] for f in shape if f["id"] in sel_ids}
-    if len(tys) == 1 and {names.field(f["id"]) for f in shape if f["ty"] in tys} == set(ns) and "any" not in tys and rng.random() < 0.5:
+    if len(tys) == 1 and {names.field(f["id"]) for f in shape if f["ty"] in tys} == set(ns) and "any" not in tys and names.dstyle == 0 and rng.random() < 0.5 and TYPE_PRED_ALLOWED["on"]:
+        TYPE_PRED_USED.append(1)
         return PYTYPES[tys.pop()]
     if rng.random() < 0.5:
         return "|".join(re.escape(n) for n in ns)
@@ -194,6 +215,9 @@ def P_ANY():
 
 
 # ---- data (gamma) ------------------------------------------------------------------------------------
+ABSENT = type("Absent", (), {"__repr__": lambda self: "<absent>"})()
+
+
 def render_data(d: dict, shape, names: Names) -> Any:
     c = d["c"]
     if c == "atom":
@@ -207,7 +231,9 @@ def render_data(d: dict, shape, names: Names) -> Any:
         if a == "xtra":
             return f"x{d['f']}"
         if a == "dfl":
-            return DEFAULTS[shape[d["f"] - 1]["ty"]]
+            return names.default(shape[d["f"] - 1]["ty"])
+        if a == "absent":
+            return ABSENT
         raise ValueError(a)
     if c == "dict":
         return {names.key(k): render_data(v, shape, names) for k, v in zip(d["ks"], d["vs"])}
@@ -287,6 +313,25 @@ def program_features(case: dict) -> dict:
             "n_overlays": len(case["ovs"]), "skipped": sum(1 for p in ps if not p)}
 
 
+STRICT_EXC = [KeyError, KeyError, AttributeError, ValueError, TypeError, LookupError]
+
+
+def strict_dumpers(exc_cls):
+    """user supplied field dumpers that refuse ill-typed values by raising exc_cls"""
+    from adaptix import dumper
+
+    def d_int(v):
+        if type(v) is not int:
+            raise exc_cls(v)
+        return v
+
+    def d_str(v):
+        if type(v) is not str:
+            raise exc_cls(v)
+        return v
+    return [dumper(int, d_int), dumper(str, d_str)]
+
+
 HEAP = {"on": False}     # set by c20 before the workers fork: record heap observations of successful loads / dumps
 
 
@@ -320,19 +365,35 @@ def _heap_obs(out: dict, func, make_arg, asis_of, first, label: str, case: dict)
     slot["n"] += 1
 
 
-def run_program(case: dict, seed: int, names: Names, out: dict, kind_factory=None) -> None:
+def run_program(case: dict, seed: int, names: Names, out: dict, kind=None) -> None:
+    """kind = None: the dataclass models of C03; else a vf.kinds.Kind (property C17): the same program on another model kind"""
     from adaptix import DebugTrail, ProviderNotFoundError, Retort
     from adaptix.load_error import LoadError
+    from .kinds import MISSING
     shape = case["shape"]
     rng = random.Random(f"{seed}:{stable_hash([case['shape'], case['ovs']])}")
     feats = program_features(case)
     kwargs_prog = case["sch"]["extra_in"]["p"] == "kwargs"
     ctor_log: list = []
-    model_in = make_kwargs_model(shape, names) if kwargs_prog else make_dataclass_model(shape, names, ctor_log)
-    model_out = make_dataclass_model(shape, names)
+    sat_log: list = []
+    names.kindname = None
+    if kind is None:
+        model_in = make_kwargs_model(shape, names) if kwargs_prog else make_dataclass_model(shape, names, ctor_log)
+        model_out = make_dataclass_model(shape, names)
+        rd = getattr
+        construct = lambda cls, vals: cls(**vals)  # noqa: E731
+        logs_ctor = True
+    else:
+        names.kindname = kind.name
+        model_in = kind.make(shape, names, ctor_log)
+        model_out = kind.make(shape, names)
+        rd = lambda o, n, d=None: kind.get(o, n)  # noqa: E731
+        construct = kind.construct
+        logs_ctor = kind.logs_ctor()
+        feats["kind"] = kind.name
 
     def saturator(m, extra):
-        m._sat = extra
+        sat_log.append((m, extra))
 
     def extractor(m):
         return {names.table["u1"]: "x1"}
@@ -340,6 +401,10 @@ def run_program(case: dict, seed: int, names: Names, out: dict, kind_factory=Non
 
     def add(cat, what, detail, extra_sig=None, **kw):
         sig = {"what": what, **{k: feats[k] for k in ("aslist", "extra_in", "extra_out", "nested", "list_step")}}
+        if kind is not None:
+            sig["kind"] = kind.name
+            if TYPE_PRED_USED:
+                sig["type_predicate"] = True
         if getattr(names, "table_index", None) is not None:
             sig["names"] = names.table_index
         if extra_sig:
@@ -352,6 +417,7 @@ def run_program(case: dict, seed: int, names: Names, out: dict, kind_factory=Non
         return [build_overlay(ov, shape, names, r, model, helpers) for ov in case["ovs"]]
 
     # ---------------- loader side ----------------
+    del TYPE_PRED_USED[:]
     try:
         retort_in = Retort(recipe=recipe_for(model_in))
     except Exception as e:  # noqa: BLE001
@@ -391,8 +457,11 @@ def run_program(case: dict, seed: int, names: Names, out: dict, kind_factory=Non
                     obj = res[1]
                     for i, f in enumerate(shape, start=1):
                         want = mo["obj"][i - 1]
-                        got = getattr(obj, names.field(f["id"]), "<missing attribute>")
-                        if want["a"] == "extras":
+                        got = rd(obj, names.field(f["id"]), "<missing attribute>")
+                        if want["a"] == "absent":
+                            if got is not MISSING:
+                                add("C03", "field_value_from_wrong_place", f"{dtname}: key {names.field(f['id'])} = {got!r}, documented absent for input {datum!r}", **pd)
+                        elif want["a"] == "extras":
                             exp = render_data(mo["extra"], shape, names)
                             if prune_extra(dict(got) if isinstance(got, dict) else got) != prune_extra(exp):
                                 add("C03", "extra_target_content", f"{dtname}: target field got {got!r}, unknown data is {exp!r}", **pd)
@@ -403,20 +472,20 @@ def run_program(case: dict, seed: int, names: Names, out: dict, kind_factory=Non
                                     {"default": want["a"] == "dfl"}, **pd)
                     xin = case["sch"]["extra_in"]["p"]
                     if xin in ("kwargs", "saturate"):
-                        got = getattr(obj, "kwargs", None) if xin == "kwargs" else getattr(obj, "_sat", "<saturator not called>")
+                        got = getattr(obj, "kwargs", None) if xin == "kwargs" else next((x for m, x in reversed(sat_log) if m is obj), "<saturator not called>")
                         exp = render_data(mo["extra"], shape, names)
                         if xin == "kwargs" and prune_extra(got) != prune_extra(exp) or xin == "saturate" and (not isinstance(got, dict) or prune_extra(dict(got)) != prune_extra(exp)):
                             add("C03", "extra_delivery", f"{dtname}: {xin} received {got!r}, unknown data is {exp!r}", **pd)
-                    if not kwargs_prog and ctor_log != ["post_init"]:
+                    if not kwargs_prog and logs_ctor and ctor_log != ["post_init"]:
                         add("C08", "constructor_not_called_once", f"{dtname}: constructor side effects {ctor_log}", **pd)
                     if HEAP["on"]:
                         xtarget = case["sch"]["extra_in"]["f"] if xin == "target" else 0
                         any_fields = [names.field(f["id"]) for i, f in enumerate(shape, start=1) if f["ty"] == "any" and i != xtarget]
                         _heap_obs(out, loader, lambda: render_data(probe["d"], shape, names),
-                                  lambda a, r: [getattr(r, n, None) for n in any_fields]
-                                  + ([v for v in (getattr(r, names.field(shape[xtarget - 1]["id"]), None) or {}).values()] if xtarget else [])
+                                  lambda a, r: [rd(r, n, None) for n in any_fields]
+                                  + ([v for v in (rd(r, names.field(shape[xtarget - 1]["id"]), None) or {}).values()] if xtarget else [])
                                   + (list((getattr(r, "kwargs", None) or {}).values()) if xin == "kwargs" else [])
-                                  + (list((getattr(r, "_sat", None) or {}).values()) if xin == "saturate" else []),
+                                  + (list(next((x for m, x in reversed(sat_log) if m is r), {}).values()) if xin == "saturate" else []),
                                   obj, f"load {dtname}", case)
                 else:
                     if res[0] == "ok":
@@ -444,6 +513,7 @@ def run_program(case: dict, seed: int, names: Names, out: dict, kind_factory=Non
                         elif len(flat) != 1 or not any(err_matches((m[0], flat[0][1], flat[0][2]), m) for m in want):
                             add("C06", "disable_error_not_among_all", f"DISABLE: raised {flat}; documented set {sorted(map(str, want))}", **pd)
     # ---------------- dumper side ----------------
+    del TYPE_PRED_USED[:]
     try:
         retort_out = Retort(recipe=recipe_for(model_out))
     except Exception as e:  # noqa: BLE001
@@ -463,9 +533,35 @@ def run_program(case: dict, seed: int, names: Names, out: dict, kind_factory=Non
         add("C03", "dumper_creation_verdict", f"documented: {'created' if case['created_out'] else 'refused'}; observed: "
             f"{'created' if created else 'refused'}")
     if created and case["created_out"]:
+        strict: dict = {}
         for dump in case["dumps"]:
             vals = {names.field(f["id"]): render_data(v, shape, names) for f, v in zip(shape, dump["obj"])}
-            obj = model_out(**vals)
+            vals = {k: (MISSING if v is ABSENT else v) for k, v in vals.items()}
+            obj = construct(model_out, vals)
+            if any(v["a"] == "bad" for v in dump["obj"]):
+                # a field value its (user supplied, type checking) dumper refuses: the dump fails in every debug mode
+                if not strict:
+                    exc_cls = STRICT_EXC[int(stable_hash([case["shape"], case["ovs"]]), 16) % len(STRICT_EXC)]
+                    try:
+                        for dt in DebugTrail:
+                            strict[dt.name] = retort_out.extend(recipe=strict_dumpers(exc_cls)).replace(debug_trail=dt).get_dumper(model_out)
+                    except Exception as e:  # noqa: BLE001
+                        add("C03", "dumper_creation_raises", f"get_dumper with user field dumpers raised {type(e).__name__}: {str(e)[:200]}")
+                        break
+                verdicts = {}
+                for dtname, dumper in strict.items():
+                    out["runs"] += 1
+                    try:
+                        verdicts[dtname] = ("ok", dumper(obj))
+                    except BaseException as e:  # noqa: BLE001
+                        verdicts[dtname] = ("err", type(e).__name__)
+                oks = {k for k, v in verdicts.items() if v[0] == "ok"}
+                if 0 < len(oks) < 3:
+                    add("C06", "dump_verdict_differs_between_modes", f"dump({obj!r}) with type checking field dumpers: {verdicts}", {"modes_ok": sorted(oks)})
+                elif (len(oks) == 0) != dump["fails"]:
+                    add("C03", "dump_swallows_field_dumper_error" if dump["fails"] else "dump_fails_on_field_not_in_layout",
+                        f"dump({obj!r}) with type checking field dumpers: {verdicts}; documented: {'fails' if dump['fails'] else 'succeeds'}")
+                continue
             want = render_data(dump["out"], shape, names)
             for dtname, dumper in dumpers.items():
                 out["runs"] += 1
@@ -481,9 +577,9 @@ def run_program(case: dict, seed: int, names: Names, out: dict, kind_factory=Non
                     xo = case["sch"]["extra_out"]
                     xtarget = xo["f"] if xo["p"] == "target" else 0
                     any_fields = [names.field(f["id"]) for i, f in enumerate(shape, start=1) if f["ty"] == "any" and i != xtarget]
-                    _heap_obs(out, dumper, lambda: model_out(**{k: copy.deepcopy(v) for k, v in vals.items()}),
-                              lambda a, r: [getattr(a, n, None) for n in any_fields]
-                              + (list((getattr(a, names.field(shape[xtarget - 1]["id"]), None) or {}).values()) if xtarget else []),
+                    _heap_obs(out, dumper, lambda: construct(model_out, {k: copy.deepcopy(v) for k, v in vals.items()}),
+                              lambda a, r: [rd(a, n, None) for n in any_fields]
+                              + (list((rd(a, names.field(shape[xtarget - 1]["id"]), None) or {}).values()) if xtarget else []),
                               got, f"dump {dtname}", case)
 
 
@@ -585,7 +681,8 @@ def _min_per_sig(fs: list) -> list:
 def _worker(items) -> dict:
     out: dict = {"programs": 0, "runs": 0, "machinery": [], "samples": [], "heap": {}, **{c: [] for c in CATS}}
     out["twins"] = 0
-    for seed, path, spans, tables in items:
+    out["by_kind"], out["unsupported"] = {}, {}
+    for seed, path, spans, tables, kinds in items:
         prev = None
         names = Names()
         with open(path, "rb") as f:
@@ -597,6 +694,19 @@ def _worker(items) -> dict:
                     names = Names(tables[(h + seed) % len(tables)])
                     names.table_index = (h + seed) % len(tables)
                 try:
+                    if kinds is not None:
+                        from .kinds import BY_NAME
+                        names.dstyle = (int(stable_hash([case["shape"], case["ovs"]]), 16) + seed) % 2
+                        for kn in kinds:
+                            why = BY_NAME[kn].supports(case["shape"], case["sch"])
+                            if case["sch"]["extra_in"]["p"] == "kwargs":
+                                why = "ExtraKwargs needs a constructor with **kwargs"
+                            if why is None:
+                                run_program(case, seed, names, out, BY_NAME[kn])
+                                out["by_kind"][kn] = out["by_kind"].get(kn, 0) + 1
+                            else:
+                                out["unsupported"][f"{kn}: {why}"] = out["unsupported"].get(f"{kn}: {why}", 0) + 1
+                        continue
                     run_program(case, seed, names, out)
                     twinable = case["created_in"] and case["sch"]["extra_in"]["p"] not in ("kwargs", "target") and len(case["shape"]) == 3
                     if twinable and prev is not None and prev["shape"] == case["shape"] and prev["ovs"] != case["ovs"]:
@@ -615,28 +725,36 @@ def _worker(items) -> dict:
     return out
 
 
-def run_slices(ctx: Ctx, slices, max_overlays: dict, tables: Optional[list] = None, twins: bool = True) -> dict:
-    total: dict = {"programs": 0, "runs": 0, "twins": 0, "heap": {}, **{c: [] for c in CATS}}
+def run_slices(ctx: Ctx, slices, max_overlays: dict, tables: Optional[list] = None, twins: bool = True, kind_tla: str = "dataclass",
+               kinds: Optional[list] = None, every: int = 1, invs: Optional[list] = None) -> dict:
+    """kinds: run every program on these model kinds (vf/kinds.py) instead of the C03 dataclass models; kind_tla: the Kinds.tla
+    variant the cases are enumerated for; every: replay only the programs whose hash is 0 modulo `every` (quick tiers)"""
+    total: dict = {"programs": 0, "runs": 0, "twins": 0, "heap": {}, "by_kind": {}, "unsupported": {}, **{c: [] for c in CATS}}
     for sl in slices:
-        cfg = make_cfg(constants=dict(Slice=f'"{sl}"', MaxOverlays=max_overlays.get(sl, 1), EmitCases=True), invariants=INVS)
-        res = run_tlc(ctx.scratch, "MC_Layout", cfg, tag=f"MC_Layout_{sl}", timeout_s=3000, heap_gb=12)
+        cfg = make_cfg(constants=dict(Kind=f'"{kind_tla}"', Slice=f'"{sl}"', MaxOverlays=max_overlays.get(sl, 1), EmitCases=True), invariants=INVS + (invs or []))
+        res = run_tlc(ctx.scratch, "MC_Layout", cfg, tag=f"MC_Layout_{kind_tla}_{sl}", timeout_s=3000, heap_gb=12)
         ctx.add_tlc(res, f"slice {sl}: programs enumerated with probe families; model-level invariants")
         if not res.ok:
             ctx.model_violation(res, "Layout.tla violates its own consistency properties")
         spans = []
-        off = 0
+        off = n_seen = 0
         with open(res.out_path, "rb") as f:
             for line in f:
                 ln = len(line)
                 if line.startswith(b'"{\\"shape\\":'):
-                    spans.append((off, ln - 1))
+                    n_seen += 1
+                    if every == 1 or (n_seen + ctx.seed) % every == 0:
+                        spans.append((off, ln - 1))
                 off += ln
-        items = [(ctx.seed, str(res.out_path), spans[i:i + 20], tables) for i in range(0, len(spans), 20)]
+        items = [(ctx.seed, str(res.out_path), spans[i:i + 20], tables, kinds) for i in range(0, len(spans), 20)]
         machinery = []
         for o in pmap(_worker, items, chunk=1):
             total["programs"] += o["programs"]
             total["runs"] += o["runs"]
             total["twins"] += o["twins"]
+            for kk in ("by_kind", "unsupported"):
+                for k, v in o[kk].items():
+                    total[kk][k] = total[kk].get(k, 0) + v
             machinery += o["machinery"]
             for k, slot in o["heap"].items():
                 if k in total["heap"]:
